@@ -73,6 +73,7 @@ Definition slen (s : zslice) : Z := snd s - fst s.
 (* float arithmetic on values: a non-finite operand gives a non-finite result *)
 Definition vsub (d : val) (b : Z) : val := match d with Some z => Some (z - b) | None => None end.
 Definition vmulw (d : val) (w : Z) : val := match d with Some z => Some (z * w) | None => None end.
+Definition vsq (e : val) : val := match e with Some z => Some (z * z) | None => None end.
 Definition oadd (a b : val) : val :=
   match a, b with Some x, Some y => Some (x + y) | _, _ => None end.
 Definition osum (l : list val) : val := fold_right oadd (Some 0) l.
@@ -85,7 +86,7 @@ Record scene := mkscene {
   s_ny : Z; s_nx : Z;                     (* data.shape *)
   s_data : img val;
   s_mask : option (img bool);
-  s_err : option (img Z);
+  s_err : option (img val);               (* error map; None pixel = NaN / inf *)
   s_center : bool }.
 
 (* one aperture position: bbox, centre-method weights, sum-method weights (both of bbox shape),
@@ -132,8 +133,10 @@ Definition data_at : val :=
            end in
   vmulw d aw_at.
 (* variance_cutout = error[slc_large]**2 * aperweight_cutout * ~mask_cutout *)
-Definition var_at (e : img Z) : Z :=
-  let ev := get2 0 e y x in ev * ev * aw_at * (if mask_at_cell then 0 else 1).
+(* a non-finite error stays non-finite under the masking product (NaN * 0 = NaN, inf * 0 = NaN); such
+   cells are removed only by the mask of the masked array (compressed()) *)
+Definition var_at (e : img val) : val :=
+  vmulw (vmulw (vsq (get2 None e y x)) aw_at) (if mask_at_cell then 0 else 1).
 End Cell.
 
 (* one element of the list returned by _make_aperture_cutouts *)
@@ -152,7 +155,7 @@ Definition make_cutouts (sc : scene) (b : bbox) (W : img Z) (bkg : Z) (clip : op
       mkfam (map (data_at sc W bkg clip large small) cs)
             (match s_err sc with
              | None => None
-             | Some e => Some (map (fun jk => Some (var_at sc W bkg clip large small jk e)) cs)
+             | Some e => Some (map (fun jk => var_at sc W bkg clip large small jk e) cs)
              end)
             (map (mask_at_cell sc W bkg clip large small) cs)
             (map (fun jk => Some (weight_at sc W bkg clip large small jk)) cs)
@@ -392,7 +395,7 @@ Definition phot_good (mask : option (img bool)) (W : img Z) (large small : slice
            | Some m => get2 false m (fst (fst large) + fst jk) (fst (snd large) + snd jk)
            end).
 
-Definition photometry_one_ref (b : bbox) (W : img Z) (ny nx : Z) (data : img val) (err : option (img Z))
+Definition photometry_one_ref (b : bbox) (W : img Z) (ny nx : Z) (data : img val) (err : option (img val))
            (mask : option (img bool)) : val * val :=
   match overlap_slices b ny nx with
   | None => (None, None)                                  (* aperture_sums.append(np.nan) ... *)
@@ -404,8 +407,7 @@ Definition photometry_one_ref (b : bbox) (W : img Z) (ny nx : Z) (data : img val
        match err with
        | None => None
        | Some e =>        (* (error[slc_large]**2 * aper_weights)[pixel_mask].sum() *)
-           Some (zsum (map (fun jk => let ev := get2 0 e (fst (fst large) + fst jk) (fst (snd large) + snd jk) in
-                                      ev * ev * wt jk) good))
+           osum (map (fun jk => vmulw (vsq (get2 None e (fst (fst large) + fst jk) (fst (snd large) + snd jk))) (wt jk)) good)
        end)
   end.
 
@@ -529,7 +531,8 @@ Definition quant_slack (sc : scene) (a : aper) (bkg : Z) : Z * Z * Z :=
       (zsum (map (fun jk => match data0_at sc bkg large jk with Some v => Z.abs v | None => 0 end) cs),
        match s_err sc with
        | None => 0
-       | Some e => zsum (map (fun jk => let ev := get2 0 e (fst (fst large) + fst jk) (fst (snd large) + snd jk) in ev * ev) cs)
+       | Some e => zsum (map (fun jk => match get2 None e (fst (fst large) + fst jk) (fst (snd large) + snd jk) with
+                                        | Some ev => ev * ev | None => 0 end) cs)
        end,
        Z.of_nat (length cs))
   end.
